@@ -262,10 +262,58 @@ def check_order(ctx, rep, cmp_expr, parts):
     return n
 
 
+def check_dag_sharing(ctx, rep, cmp_expr):
+    """Generated family: the same operator tree over every assignment of its leaf positions to two leaf
+    values, each available as two equal-but-distinct objects.  Sub-objects are therefore shared inside an
+    operand and paired with equal, non-identical partners across operands in every possible pattern.  The
+    sign of cmp_expr may depend on the structure only: zero exactly for equal structures, and the same for
+    all object-sharing variants of a pair of structures."""
+    ip = make_interp(ctx, [])
+    U = Universe(ctx, {"i": 5, "j": 7}, {"a": 11, "b": 12})
+    N = U.node
+    f3 = dict(U.items)["f3"]
+
+    def leafobj(k):
+        ii = Obj("FixedIndex", __class__=ctx.prog.get_class("ufl.core.multiindex.FixedIndex"), _value=k, anon=("fixed", k))
+        m = N("MultiIndex", True, _indices=(ii,))
+        m.attrs["anon"] = (("fixed", k),)
+        m.attrs["exact"] = (k,)
+        return N("Indexed", False, (f3, m))
+
+    leaves = {"x0": leafobj(0), "x1": leafobj(1), "y0": leafobj(0), "y1": leafobj(1)}
+    items = []
+    for l1, l2, l3 in itertools.product(leaves, repeat=3):
+        e = N("Product", False, (N("Product", False, (N("Sin", False, (leaves[l1],)), N("Cos", False, (leaves[l2],)))), N("Exp", False, (leaves[l3],))))
+        items.append((f"sin({l1})*cos({l2})*exp({l3})", e, anon_key(e)))
+    groups = {}
+    bad = 0
+    n = 0
+    for (na, a, ka), (nb, b, kb) in itertools.product(items, repeat=2):
+        if na >= nb and ka != kb:
+            continue  # each unordered pair of different structures once; equal structures both ways
+        r = sign(ip.call_function(cmp_expr, [a, b], {}))
+        n += 1
+        if (r == 0) != (ka == kb):
+            bad += 1
+            if bad <= 4:
+                rep.violation("C29-dag", cmp_expr, f"({na}, {nb})", f"cmp_expr({na}, {nb}) = {r}: x*/y* are equal but distinct objects, so the result must be {'0' if ka == kb else 'non-zero'}; with a tie between different expressions a+b and b+a keep their input order", witness={"a": na, "b": nb})
+            continue
+        key = (ka, kb) if repr(ka) <= repr(kb) else (kb, ka)
+        val = r if repr(ka) <= repr(kb) else -r
+        if groups.setdefault(key, val) != val:
+            bad += 1
+            if bad <= 4:
+                rep.violation("C29-dag", cmp_expr, f"({na}, {nb})", f"cmp_expr({na}, {nb}) = {r} but another object-sharing variant of the same two expressions compares the other way", witness={"a": na, "b": nb})
+    if not bad:
+        rep.ok("C29-dag", cmp_expr, f"{n} comparisons of {len(items)} object-sharing variants of 8 structures: sign depends on the structure only")
+    return n
+
+
 def run(ctx) -> Report:
     rep = Report("C29")
     prog = ctx.prog
     cmp_expr = prog.get_function(SORTING, "cmp_expr")
+    check_dag_sharing(ctx, rep, cmp_expr)
     ip = make_interp(ctx, [])
     table = ip.module_globals[SORTING].get("_terminal_cmps")
     if not isinstance(table, dict) or not table:
